@@ -200,6 +200,14 @@ impl LayersData {
                 )));
             }
         }
+        // Cels refer to their layer by a 16-bit index, and cel ids store the
+        // layer as `u16`. Layers beyond that range could not be addressed.
+        if layers.len() > u16::MAX as usize + 1 {
+            return Err(AsepriteParseError::InvalidInput(format!(
+                "Too many layers: {}",
+                layers.len()
+            )));
+        }
         let parents = compute_parents(&layers);
         Ok(LayersData { layers, parents })
     }
